@@ -51,6 +51,7 @@ def run(ctx):
     r7_callers(ctx)
     r8_slot_index(ctx)
     r9_presence_agreement(ctx)
+    r10_getters_do_not_restart(ctx)
 
 
 # ------------------------------------------------------------------------------------------ R1
@@ -517,6 +518,50 @@ def r8_slot_index(ctx):
     ctx.floor("C19.R8", "slot look-ups in the lock helpers", n, 4)
 
 
+def r10_getters_do_not_restart(ctx, rule="C19.R10"):
+    """what a getter yields goes straight into the entry being written: a generator getter that retries after a failure may only do so while it has
+    yielded nothing, otherwise the entry holds the partial value followed by the complete one and is served as complete."""
+    ctx.rule(rule, "getters handed to the cacher do not start over behind what they already yielded: a generator that re-yields itself (retry) from an except handler counts the "
+                   "items it yields in the try body and re-raises, before the retry, when that count is non-zero")
+    OML = "coba/environments/openml.py"
+    n = 0
+    for (rel, qual), fn in sorted(ctx.model.functions.items()):
+        if rel != OML:
+            continue
+        name = qual.split(".")[-1]
+        for t in [t for t in ast.walk(fn) if isinstance(t, ast.Try)]:
+            for h in t.handlers:
+                retries = [y for y in ast.walk(h) if isinstance(y, ast.YieldFrom) and isinstance(y.value, ast.Call) and call_tail(y.value) == name]
+                if not retries:
+                    continue
+                n += 1
+                ctx.touch(OML, qual)
+                body_yields = [y for b in t.body for y in ast.walk(b) if isinstance(y, (ast.Yield, ast.YieldFrom))]
+                counters = set()
+                counted = True
+                for y in body_yields:
+                    if isinstance(y, ast.YieldFrom):
+                        counted = False   # a delegated stream cannot be counted
+                        continue
+                    st = enclosing_stmt(y)
+                    body = None
+                    from ..model import parent
+                    p_ = parent(st)
+                    for field in ("body", "orelse"):
+                        if st in (getattr(p_, field, None) or []):
+                            body = getattr(p_, field)
+                    before = body[:body.index(st)] if body else []
+                    incs = [b for b in before if isinstance(b, ast.AugAssign) and isinstance(b.op, ast.Add) and isinstance(b.target, ast.Name)]
+                    if not incs:
+                        counted = False
+                    counters |= {b.target.id for b in incs}
+                guard = [x for x in h.body if isinstance(x, ast.If) and any(isinstance(r, ast.Raise) for r in x.body) and any(isinstance(nm, ast.Name) and nm.id in counters for nm in ast.walk(x.test))
+                         and x.lineno < retries[0].lineno]
+                ctx.ob(rule, OML, qual, retries[0], "the retry is reached only when nothing was yielded before the failure (yields counted, non-zero count re-raises)", counted and bool(counters) and bool(guard),
+                       detail={"counters": sorted(counters), "yields counted": counted})
+    ctx.floor(rule, "retrying generator getters", n, 1)
+
+
 def r9_presence_agreement(ctx, rule="C19.R9"):
     """ConcurrentCacher chooses between its read path (read lock, inner get_set(key, None)) and its write path by `key in <inner cache>`:
     an inner get_set that mutates the store for a key its own __contains__ reports as present mutates under a mere read lock."""
@@ -552,6 +597,7 @@ def r9_presence_agreement(ctx, rule="C19.R9"):
 
 
 CONTROLS = [
+    ("openml download restarts behind a partial body", "coba/environments/openml.py", M.replace_expr("OpenmlSource._http_request", "tries == 3 or n_lines", "tries == 3"), "C19.R10"),
     ("get_set releases on Exception only", CCH, M.replace_stmt("ConcurrentCacher.get_set", lambda st: isinstance(st, ast.Try),
         "try:\n    self._acquire_write_lock(key)\n    item = self._cache.get_set(key, getter)\n    self._switch_write_to_read_lock(key)\n    return self._release_read_on_exit(key, item)\nexcept Exception as e:\n    if self._has_read_lock(key): self._release_read_lock(key)\n    if self._has_write_lock(key): self._release_write_lock(key)\n    raise"), "C19.R2"),
     ("MemoryCacher refreshes None entries", CCH, M.insert_before("MemoryCacher.get_set", M.text_has("if key not in self"), "if key in self and self._cache[key] is None: del self._cache[key]"), "C19.R9"),
